@@ -6,6 +6,7 @@ from ..rules_ast import assembly_write_set, feature_writers
 
 def run(ctx):
     r = ctx.report
+    r.skip.add("K16.references-kept")  # the product's reference list is C10/C11 business
     r.explanation = (
         "(a) K5: on every region of (part bounds, rotation amount, n) a feature part is relocated by exactly k modulo n "
         "with width, strand, refs, type and qualifiers intact and its start normalised into [0,n); only the single-part "
